@@ -291,10 +291,30 @@ def gen(seed, family=None, knobs=None):
     }
     if rnd.random() < 0.6:
         nodes_opts["monitored_traffic"] = {"icmp": ["NONE"], "tcp": rnd.sample(["DNS", "HTTP", "POSTGRES_SERVER", "FTP"], 2)}
+    rnd_o = random.Random(f"{seed}-node-level-obs-overrides")  # separate stream: older seeds keep their scenarios otherwise
+
+    def acl_overrides(d):
+        if rnd_o.random() < 0.4:
+            d["num_rules"] = rnd_o.choice([2, 4, 12])
+        if rnd_o.random() < 0.3:
+            d["include_users"] = rnd_o.random() < 0.5
+        if rnd_o.random() < 0.3:
+            d["ip_list"] = rnd_o.sample(all_ips, max(1, len(all_ips) // 2))
+        return d
+
     if routers:
-        nodes_opts["routers"] = [{"hostname": r} for r in routers]
+        robs = []
+        for r in routers:
+            d = acl_overrides({"hostname": r})
+            if rnd_o.random() < 0.5:  # explicit port list: any ids (existing or not), count smaller or larger than num_ports
+                ids = rnd_o.sample([1, 2, 3, 4, 5, 6], rnd_o.randint(1, 4))
+                d["ports"] = [{"port_id": i} for i in ids]
+            if rnd_o.random() < 0.4:
+                d["num_ports"] = rnd_o.choice([1, 2, 3, 5])
+            robs.append(d)
+        nodes_opts["routers"] = robs
     if firewalls:
-        nodes_opts["firewalls"] = [{"hostname": f} for f in firewalls]
+        nodes_opts["firewalls"] = [acl_overrides({"hostname": f}) for f in firewalls]
     comps = [{"type": "nodes", "label": "NODES", "options": nodes_opts}]
     link_refs = [f"{l['endpoint_a_hostname']}:eth-{l['endpoint_a_port']}<->{l['endpoint_b_hostname']}:eth-{l['endpoint_b_port']}" for l in n.links]
     if rnd.random() < 0.5:  # the documented reference may name the endpoints in either order
